@@ -198,7 +198,8 @@ def run(ctx, proofs):
         "exhaustive_part": "all rooted digraphs with n <= %d: %d graphs%s" % (
             top, n_sweep - (sum(1 for h in heads_i if h.startswith("5 ")) if quick else 0),
             " (+ %d rooted graphs from the n = 5 slices)" % sum(1 for h in heads_i if h.startswith("5 ")) if quick else ""),
-        "samples": [disagreements[0]] if disagreements else [impl[len(impl) // 3], impl_r[len(corpus_lines())], impl_r[-1]],
+        "samples": [disagreements[0]] if disagreements else [
+            edges_line(heads_i[len(impl) // 3]) + " = " + rhs(impl[len(impl) // 3]), impl_r[len(corpus_lines())], impl_r[-1]],
         "random_graph_sizes": sizes,
         "back_edge_probability_histogram": pb_hist,
         "dominator_tree_depth_histogram": {str(k): v for k, v in sorted(stats["depth"].items())},
@@ -213,7 +214,8 @@ def run(ctx, proofs):
         "difference), modelled by N bit masks: observed by the correspondence, not proved",
         "the harness node type gives predecessor/successor sets that mirror each other; graphs with unreachable nodes or "
         "edges into node 0 are outside the property (there the result depends on the hash order) and are not compared",
-        "the executable oracle Spec.DomSpec.dom_by_deletion is the path definition: see open_statements / theorem list",
+        "cargo/rustc compile DominatorTree::new for the harness node type as for the CFG basic blocks (the function is generic; "
+        "the production instantiation is exercised by C12-C14, not here)",
     ]
 
 
